@@ -759,10 +759,14 @@ Definition sub_paths (i : nat) (l : list (list nat)) : list (list nat) :=
    14 status differs from the combination of the children's reported statuses
    3  aggregator without critical descendant reports STANDBY instead of no opinion (C11-a)
    9  aggregator without critical descendant reports something else than INVARIANT / STANDBY
-   10 aggregator without any task below (iterators expanded to nothing) reports INACTIVE (C11-c)
+   10 an aggregator BELOW THE ROOT without any task below (iterators expanded to nothing) is in the
+      tree and reports INACTIVE: its parent folds that in and cannot become ACTIVE.  The loader
+      prunes such aggregators since 3e1e68b (was finding C11-c).  With [top = true] the node is
+      the root of the workflow and is not judged on this: a workflow without any role has no task
+      and nothing to fold, no update can ever arrive, the root says what the loader left
    15 aggregator without any task below reports something else than INACTIVE (as loaded) or
       UNDEFINED (what aggregateStatus makes of no roles) *)
-Fixpoint snap_codes (stale : list (list nat)) (t : rtree) : list N :=
+Fixpoint snap_codes_r (top : bool) (stale : list (list nat)) (t : rtree) : list N :=
   match t with
   | Leaf _ _ _ => []
   | Agg s x cs =>
@@ -781,20 +785,24 @@ Fixpoint snap_codes (stale : list (list nat)) (t : rtree) : list N :=
            if negb (has_crit t) && negb (state_beq s INVARIANT)
            then (if state_beq s STANDBY then 3 else 9) else 0;
            if negb (has_leaf t)
-           then (if status_beq x INACTIVE then 10 else if status_beq x UNDEFINED then 0 else 15)
+           then (if status_beq x INACTIVE then (if top then 0 else 10)
+                 else if status_beq x UNDEFINED then 0 else 15)
            else 0 ]
       ++ (fix go (i : nat) (l : list rtree) : list N :=
             match l with
             | [] => []
-            | c :: r => snap_codes (sub_paths i stale) c ++ go (S i) r
+            | c :: r => snap_codes_r false (sub_paths i stale) c ++ go (S i) r
             end) O cs
   end.
+(* every node judged alike / the node is the root of a workflow *)
+Definition snap_codes := snap_codes_r false.
+Definition snap_top := snap_codes_r true.
 
 (* classes by priority: unrecorded classes first, so that a recorded finding never hides a
    different violation.  8 leaf does not report what it was last told / shape changed;
    13 ParentAdapter was not told the root's value; 11 result depends on the order of children;
    12 result depends on the order of updates to different tasks *)
-Definition prio : list N := [8; 13; 4; 1; 6; 2; 14; 9; 15; 5; 11; 12; 7; 10; 3].
+Definition prio : list N := [8; 13; 4; 1; 6; 2; 14; 9; 15; 10; 5; 11; 12; 7; 3].
 Definition pick_code (present : list N) : N :=
   match filter (fun c => memN c present) prio with [] => 0 | c :: _ => c end.
 
@@ -847,7 +855,7 @@ Fixpoint mon_steps (t : rtree) (ops : list op) (obs : list step_obs) : list N :=
       (if leaves_ok (seq_leaf_ok o) [] t t' then 0 else 8) ::
       (if list_eqb N.eqb (o_adapter ob) (if propagates o t then [value_at o [] t'] else [])
        then 0 else 13) ::
-      snap_codes [] t' ++ mon_steps t' ops' obs'
+      snap_top [] t' ++ mon_steps t' ops' obs'
   | _, _ => []
   end.
 
@@ -862,17 +870,17 @@ Definition mon11 (c : c11_case) : N :=
   match c with
   | CSeq mode t0 ops obs =>
       if N.eqb mode 2 then 0
-      else pick_code (snap_codes [] t0 ++ mon_steps t0 ops obs)
+      else pick_code (snap_top [] t0 ++ mon_steps t0 ops obs)
   | CConc t0 ups segs final adapter =>
       pick_code ((if leaves_ok (conc_leaf_ok ups) [] t0 final then 0 else 8) ::
-                 snap_codes (stale_error_leaves ups final) final)
+                 snap_top (stale_error_leaves ups final) final)
   | CPerm t0 ops final pt t0' ops' final' =>
       if rtree_eqb (apply_perm pt final) final' then 0 else 11
   | CComm t0 ops1 final1 ops2 final2 =>
       if rtree_eqb final1 final2 then 0 else 12
   | CGate mode t0 pP oB oA parked blocked final adapter =>
       pick_code ((if leaves_ok (gate_leaf_ok oB oA) [] t0 final then 0 else 8) ::
-                 snap_codes [] final)
+                 snap_top [] final)
   end.
 
 (* --- branch tags (measured input distribution) --- *)
